@@ -23,7 +23,8 @@ SPEC = dict(
              'c07_src_refuse_iff_composite (raise iff out of range or no room; remaining refs of a slice) and c07_src_read_bounds (over-read raises and leaves the slice unchanged, '
              'otherwise exactly the next bits and an advance by exactly that many) are theorems about the regenerated methods. store_snake_bytes / store_snake_string are regenerated as well (Generated/SnakeOps.lean, equal to the hand model for all inputs, see C06): '
              'c07_src_snake_capacity - for every byte string, every cell constructor and every within-capacity builder the regenerated snake store leaves the builder within 1023 bits / 4 refs '
-             '(returning or raising) and never asks for a cell of more than 1023 bits or 4 references (guarding the constructor by that test changes nothing). '
+             '(returning or raising) and never asks for a cell of more than 1023 bits or 4 references (guarding the constructor by that test changes nothing). c07_src_forms_capacity: no argument form of store_bit / store_bits (bool, text, TvmBitarray, plain bitarray, list / tuple of ints, iterator) '
+             'or store_address(text) bypasses the capacity test - each regenerated form (Generated/ArgForms.lean) keeps a within-capacity builder within 1023 bits / 4 refs, returning or raising. '
              'The model is tied to the working tree by '
              'differential testing of builder histories at every fill level and of over-reads, each also checked on the library alone against an '
              'independent fits/range predictor.',
@@ -37,7 +38,8 @@ SPEC = dict(
     translators=[('tvm_bitarray.py/builder.py capacity tests->Generated/Capacity.lean', arith.regenerator('Capacity')),
                  ('builder.py/tvm_bitarray.py store_* methods->Generated/BuilderOps.lean', bsops.regenerator('BuilderOps')),
                  ('slice.py/tvm_bitarray.py load_*/preload_* methods->Generated/SliceOps.lean', bsops.regenerator('SliceOps')),
-                 ('builder.py snake store->Generated/SnakeOps.lean', bsops.regenerator('SnakeOps'))],
+                 ('builder.py snake store->Generated/SnakeOps.lean', bsops.regenerator('SnakeOps')),
+                 ('builder.py store_bit/store_bits/store_address argument forms->Generated/ArgForms.lean', bsops.regenerator('ArgForms'))],
     design_ref='DESIGN.md §6 C07',
     rule='builder histories at every fill level (0,1,1015..1023 bits x 0..4 refs) mixing fitting, overflowing and out-of-range stores '
          '(ints, var-ints, bits, bytes, refs, maybe-refs, cells, partly consumed slices, addresses, snake strings); each op must succeed iff '
